@@ -291,7 +291,7 @@ theorem allPassChain_silent : ∀ (as : List (AllPass ℝ × AllPass ℝ)) r,
     intro r hs h
     obtain ⟨l, rr⟩ := c
     rw [allPassChain] at h
-    simp only [Frame.zero_left, Frame.zero_right] at h
+    simp only [FrameB.zero_left, FrameB.zero_right] at h
     split at h
     · cases h
     · rename_i l' ol hl
@@ -320,7 +320,7 @@ theorem allPassChain_silent : ∀ (as : List (AllPass ℝ × AllPass ℝ)) r,
 theorem frame_silent (ls : ReverbLines ℝ) (hs : ls.Silent) (fb dp : ℝ) r
     (h : ls.frame Frame.zero fb dp = .ok r) : r.1.Silent ∧ r.2 = Frame.zero := by
   obtain ⟨combs, aps⟩ := ls
-  simp only [frame, Frame.zero_left, Frame.zero_right, r32_real, add_zero, zero_mul] at h
+  simp only [frame, FrameB.zero_left, FrameB.zero_right, r32_real, add_zero, zero_mul] at h
   split at h
   · cases h
   · rename_i combs' o1 hc
